@@ -286,7 +286,9 @@ def normalize_url(
         return original_url_arg
 
     # Fixing common mistakes
+    # NOTE: items are unescaped first so that "&amp;" is found however it was escaped
     if fix_common_mistakes and query:
+        query = safe_serialize_qsl(safely_unquote_qsl(safe_qsl_iter(query)))
         query = fix_common_query_mistakes(query)
 
     # Handling punycode
